@@ -91,6 +91,27 @@ def _len_worker(n):
             same = True
         if same:
             bad.append(('edit', n, name))
+    # the same edits performed IN PLACE on one list object that was committed to before (and restored afterwards): what
+    # was computed for the earlier content must not be served for the edited content
+    work = list(lst)
+    for name, l2 in edits(lst, fresh):
+        if l2 == lst:
+            continue
+        ne += 1
+        try:
+            r0 = get_merkle_root(work)
+            t0 = get_merkle_tree(work).hash()
+            work[:] = l2
+            r1 = get_merkle_root(work)
+            t1 = get_merkle_tree(work).hash()
+            ok = r0 == root and t0 == root and r1 != root and t1 == r1 and r1 == get_merkle_root(list(l2))
+            work[:] = lst
+        except Exception:
+            ok = False
+            work = list(lst)
+        if not ok:
+            bad.append(('edit-in-place', n, name))
+            break
     npf = 0
     tree_desc = get_merkle_tree(list(lst))
     for i in list(range(n)) + [-(j + 1) for j in range(n)]:
